@@ -127,14 +127,16 @@ def check_C03(fx, eng, rep, tier):
     rep.explanation = ('SAMPLE: every version handed out or refreshed is the low 32 bits of an atomic read of the lock word whose path condition '
                        'implies X clear. VERIFY: the result is exactly (refreshed version == version at entry) and the guard keeps the refreshed value. '
                        'TRY: an owning result only through a CAS certified on a word whose version equals the guard\'s (and that satisfies the admission '
-                       'predicate, C01); an empty result only when the sampled version differs.')
+                       'predicate, C01); an empty result only when the sampled version differs. Included from C09: every write that ends an exclusive grant '
+                       'publishes the guard\'s new version (VER.VAL) and that version is acquisition version + 1 unless SetVersion replaced it (VER.FLOW) - without '
+                       'these an unchanged version would not imply that no exclusive section was committed.')
     rep.rule_text = 'C03.SAMPLE / C03.VERIFY / C03.TRY per function and path; C01.ADM for the TryLock* rows'
     rep.trusted = ['clang 14 AST/CFG', 'field abstraction of the lock word', 'interleaving semantics of atomic steps (not the memory model, see DESIGN.md)']
     res = lock_sinks(fx, eng, ['OptimisticLock'])
     m, sink = res['OptimisticLock']
     n = 0
     for it in sink.items:
-        if it['rule'].startswith('C03.') or ('TryLock' in it['key'] and it['rule'].startswith(('C01.ADM', 'C01.ROWS'))):
+        if it['rule'].startswith(('C03.', 'C09.VAL', 'C09.FLOW')) or ('TryLock' in it['key'] and it['rule'].startswith(('C01.ADM', 'C01.ROWS'))):
             n += 1
             getattr(rep, {'ok': 'ok', 'violated': 'violation', 'unsupported': 'unsupported'}[it['status']])(it['rule'], it['key'], it['loc'], it['detail'])
     for f in m.fns.values():
@@ -191,3 +193,139 @@ def check_C02(fx, eng, rep, tier):
     rep.trusted = ['clang 14 AST/CFG', 'field abstraction']
     rep.assumptions = ['liveness itself (fair schedules) is not decided; these are necessary conditions']
     _locks(fx, eng, rep, ALL_LOCKS, ['C02.', 'C01.REL', 'MCS.CLR', 'C07.CONV', 'C01.ROWS'], {'PessimisticLock': 10, 'OptimisticLock': 14, 'MCSLock': 14})
+
+
+# ---------------------------------------------------------------------------------- thread / epoch
+def _take(rep, sink, prefixes, only=None):
+    n = 0
+    for it in sink.items:
+        if any(it['rule'].startswith(p) for p in prefixes) and (only is None or only(it)):
+            n += 1
+            getattr(rep, {'ok': 'ok', 'violated': 'violation', 'unsupported': 'unsupported'}[it['status']])(it['rule'], it['key'], it['loc'], it['detail'])
+    return n
+
+
+def _thread_fns(rep, fx, tus):
+    for f in fx.functions.values():
+        if f['tu'] in tus and f['name'].startswith('dbgroup::thread::'):
+            rep.saw_fn(f)
+
+
+def check_C15(fx, eng, rep, tier):
+    import ids
+    eng.max_header_visits = 3
+    r, sink = ids.analyse(fx, eng)
+    rep.explanation = ('Event order on the thread-exit path: in the CFG of ~HeartBeater (implicit member destructors included) the event that drops the heartbeat\'s '
+                       'control block (EXPIRE) must precede the store that frees the reservation flag (FREE) on every path; FREE must be a release and the claiming RMW '
+                       'an acquire so that "already expired" also holds for the claimer under the memory model; the heartbeat member is created by SetID and dropped '
+                       'by the destructor only, GetHeartBeat returns a weak_ptr to it, and HeartBeater cannot be copied (no second owner of the control block).')
+    rep.rule_text = 'C15.ORDER / C15.SYNC / C15.LIFE on ~HeartBeater, the claim loop, SetID, GetHeartBeat'
+    rep.trusted = ['clang 14 CFG with implicit destructors', 'std::shared_ptr/weak_ptr semantics (expired <=> no owner)']
+    n = _take(rep, sink, ['C15.'])
+    _thread_fns(rep, fx, ('id_manager.cpp',))
+    rep.floor('C15 obligations', n, 8)
+
+
+def check_C05(fx, eng, rep, tier):
+    import ids
+    eng.max_header_visits = 3
+    r, sink = ids.analyse(fx, eng)
+    rep.explanation = ('ID.CLAIM: the ID recorded by SetID was claimed by an RMW on its reservation flag whose old value is tested false on that path (no check-then-store); '
+                       'ID.WHO: flags are written only by the claim loop and by ~HeartBeater for its own ID; ID.RANGE: every subscript of the reservation array is bounded by '
+                       'its extent by the path condition (unsigned compare against the extent) and the per-ID slot array has the same extent; ID.STABLE: SetID is reached '
+                       'only when the thread_local holder has no ID, GetThreadID returns the stored value.')
+    rep.rule_text = 'C05.CLAIM / C05.WHO / C05.RANGE / C05.STABLE per path of GetHeartBeater and ~HeartBeater; thorough tier re-extracts under DBGROUP_MAX_THREAD_NUM in {1,2,3,256}'
+    rep.trusted = ['clang 14 AST/CFG', 'extent of the array from the type-checked program']
+    n = _take(rep, sink, ['C05.', 'C14.FREE'])
+    _thread_fns(rep, fx, ('id_manager.cpp',))
+    rep.extra['capacity'] = r.extent
+    rep.floor('C05 obligations', n, 10)
+
+
+def check_C14(fx, eng, rep, tier):
+    import ids
+    eng.max_header_visits = 3
+    r, sink = ids.analyse(fx, eng)
+    rep.explanation = ('ID.FREE: the holder is thread_local and every path of its destructor stores false into the flag of the held ID; nothing else owns the flag. '
+                       'ID.PROBE: the claim loop exits only with a claimed ID, advances the index by one modulo the capacity and re-reads the flag in every iteration, so a '
+                       'freed slot is found within one round. Termination under over-subscription for every fair schedule is not decided.')
+    rep.rule_text = 'C14.FREE / C14.PROBE + C05.WHO / C05.STABLE(thread_local)'
+    rep.trusted = ['clang 14 AST/CFG']
+    rep.assumptions = ['liveness under over-subscription is not decided; these are its necessary conditions']
+    n = _take(rep, sink, ['C14.', 'C05.WHO', 'C05.STABLE'])
+    _thread_fns(rep, fx, ('id_manager.cpp',))
+    rep.floor('C14 obligations', n, 6)
+
+
+EPOCH_TUS = ('epoch_manager.cpp', 'epoch.cpp', 'epoch_guard.cpp', 'id_manager.cpp')
+
+
+def check_C04(fx, eng, rep, tier):
+    import epoch
+    import ids
+    eng.max_header_visits = 3
+    r, sink = epoch.analyse(fx, eng)
+    r2, sink2 = ids.analyse(fx, eng)
+    rep.explanation = ('The chain "guard created => slot bound and pin stored => scan reads every live slot => pin in the list => list sorted, minimum published" is checked link by '
+                       'link: EP.GUARD (typestate of EpochGuard), EP.ENTER (who writes the pin, what), EP.BIND (slot = caller\'s thread ID, re-bound when the stored heartbeat '
+                       'expired), EP.SCAN (loop covers every slot; only expired heartbeats and the sentinel are skipped; cur and cur+1 always appended), LIST.SORT, EP.PUBLISH '
+                       '(list filled before the release store of the new epoch), EP.REUSE (the C15 rules: an ID cannot be handed out with an unexpired heartbeat), and the '
+                       'SHARED-FIELD discipline for non-atomic members used by both roles.')
+    rep.rule_text = 'C04.GUARD / ENTER / BIND / SCAN / PUBLISH / SHARED + C16.SORT + C15.ORDER / C15.SYNC (EP.REUSE)'
+    rep.trusted = ['clang 14 AST/CFG', 'single coordinator calls ForwardGlobalEpoch (documented contract)', 'std::sort/unique/erase semantics']
+    rep.assumptions = ['visibility of the relaxed pin store to the scan is read as happens-before ("completely created before")']
+    n = _take(rep, sink, ['C04.', 'C16.SORT'])
+    n += _take(rep, sink2, ['C15.ORDER', 'C15.SYNC'])
+    _thread_fns(rep, fx, EPOCH_TUS)
+    rep.floor('C04 obligations', n, 25)
+
+
+def check_C16(fx, eng, rep, tier):
+    import epoch
+    eng.max_header_visits = 3
+    r, sink = epoch.analyse(fx, eng)
+    rep.explanation = ('EPOCH.INIT: both epoch words start at kInitialEpoch (= kCapacity, the documented initial epoch). EPOCH.STEP: the only write to the global epoch is one '
+                       'release store per ForwardGlobalEpoch of (value loaded earlier in the same call + 1). EPOCH.MIN: the only write to the minimum is the last element of '
+                       'the list built in the same call, which contains the current epoch and is sorted descending. EPOCH.QUIESCE: LeaveEpoch stores the sentinel, the scan '
+                       'skips only the sentinel and expired slots and appends cur+1 and cur unconditionally, so without guards the list is {cur+1, cur}.')
+    rep.rule_text = 'C16.INIT / C16.STEP / C16.MIN / C16.SORT + C04.SCAN / C04.ENTER / C04.PUBLISH'
+    rep.trusted = ['clang 14 AST/CFG', 'single coordinator', 'std::sort/unique/erase semantics']
+    n = _take(rep, sink, ['C16.', 'C04.SCAN', 'C04.ENTER', 'C04.PUBLISH', 'C04.GUARD'])
+    _thread_fns(rep, fx, EPOCH_TUS)
+    rep.floor('C16 obligations', n, 15)
+
+
+def check_C17(fx, eng, rep, tier):
+    import epoch
+    eng.max_header_visits = 3
+    r, sink = epoch.analyse(fx, eng)
+    rep.explanation = ('LIST.OWN: the list handed out is looked up with the returned guard\'s own pinned epoch after the guard exists; node lookup and slot selection use masks that '
+                       'partition the word. LIST.CONST: the pair\'s second member is a reference to const vector (witness) and vectors are mutated only while they are filled, before '
+                       'their epoch is published with a release store / read with an acquire load. NODE.FREE: nodes are deleted only after being unlinked, never the head, and not '
+                       'touched afterwards. SHARED-FIELD: non-atomic members written by the coordinator and read by workers are reported. Not decided: stability when a worker is '
+                       'stalled between reading the global epoch and publishing its pin (documented observation O2).')
+    rep.rule_text = 'C17.OWN / C17.CONST / C17.FREE / C17.PUB / C17.SHARED + C20.UAF + C04.SCAN / C16.SORT (shape of the list)'
+    rep.trusted = ['clang 14 AST/CFG', 'clang++ for the witness', 'single coordinator']
+    n = _take(rep, sink, ['C17.', 'C20.UAF', 'C04.SCAN', 'C16.SORT', 'C04.PUBLISH', 'C16.STEP'])
+    from witness import run_witness
+    w = run_witness(fx.flags, ['dbgroup/thread/epoch_manager.hpp'],
+                    [('second is const vector&', 'std::is_same_v<decltype(std::declval<dbgroup::thread::EpochManager &>().GetProtectedEpochs().second), const std::vector<size_t> &>', '')])
+    rep.check(w['second is const vector&'], 'C17.CONST', 'GetProtectedEpochs().second is a reference to const std::vector<size_t>', 'witness TU', 'static_assert holds', 'the list can be modified through the returned reference')
+    _thread_fns(rep, fx, EPOCH_TUS)
+    rep.floor('C17 obligations', n, 20)
+
+
+def check_C20(fx, eng, rep, tier):
+    import epoch
+    eng.max_header_visits = 3
+    r, sink = epoch.analyse(fx, eng)
+    rep.explanation = ('Sequential histories: exactness of the published list = EP.SCAN + LIST.SORT + EPOCH.MIN. NODE.ALLOC: list nodes are allocated only at a 256-epoch boundary and '
+                       'in the constructor, each becoming the head linked to the previous head. NODE.FREE: unlink before delete, never the head, no access afterwards. DTOR.WALK: the '
+                       'destructor starts at the head, reads next before deleting each node, deletes each visited node once and stops at null. Not decided: the retention bound of '
+                       'RemoveOutDatedLists (depends on runtime epochs).')
+    rep.rule_text = 'C20.ALLOC / C20.WALK / C20.UAF + C17.FREE + C04.SCAN / C16.SORT / C16.MIN'
+    rep.trusted = ['clang 14 AST/CFG', 'std::sort/unique/erase semantics']
+    rep.assumptions = ['the retention bound is not decided']
+    n = _take(rep, sink, ['C20.', 'C17.FREE', 'C04.SCAN', 'C16.SORT', 'C16.MIN'])
+    _thread_fns(rep, fx, EPOCH_TUS)
+    rep.floor('C20 obligations', n, 15)
